@@ -222,6 +222,10 @@ func (s *TO0Server) acceptOwner(ctx context.Context, msg io.Reader) (*to0AcceptO
 		captureErr(ctx, protocol.InvalidMessageErrCode, "")
 		return nil, fmt.Errorf("error decoding TO0.OwnerSign request: %w", err)
 	}
+	if sig.To1d.Payload == nil {
+		captureErr(ctx, protocol.InvalidMessageErrCode, "")
+		return nil, fmt.Errorf("error decoding TO0.OwnerSign request: to1d has no payload")
+	}
 
 	// Verify to0d hash matches to0d
 	if alg := sig.To1d.Payload.Val.To0dHash.Algorithm; !alg.Valid() {
